@@ -305,6 +305,10 @@ def run(ctx):
            'the chain list iterated by the determinant section is duplicate-free', cc,
            chain_apps[0] if chain_apps else add_atom)
 
+    common.check_mapped_sidechain_always_created(ctx, 'C01.R3', prog)
+    # with a titrate-only list: exactly the listed residues' groups (rules of C14)
+    from checks import c14
+    c14.demotion_rules(ctx, 'C01.R4', prog)
     # ------------------------------------------------------------------ R5
     common.check_bridge_flag_written(ctx, 'C01.R5', prog)
     common.check_bridge_not_titrated(ctx, 'C01.R5', prog)
